@@ -108,6 +108,23 @@ Theorem c17_update_reference : forall sc mx (ps : list (uuid * doc)) (c : collec
 Proof. exact thm_update_reference. Qed.
 Print Assumptions c17_update_reference.
 
+(* --- insert: when distributePoints gives every new point to one shard (parts: one sub-batch per shard, new
+       shards after the existing ones) and the ids are new, every inserted point is found with its document
+       through the collection seen as one store, which is exactly the insert of C01 on that store --- *)
+Theorem c17_insert_reference : forall sc (parts : list (list (uuid * doc))) (c : collection),
+  all_up c = true ->
+  NoDup (map fst (concat parts)) ->
+  (forall id, In id (map fst (concat parts)) -> ~ In id (all_ids c)) ->
+  Forall (fun p => forallb (fun q => well_typed sc (snd q)) p = true) parts ->
+  (forall id, st_get id (flat (fan_insert sc parts c)) =
+              match st_get id (concat parts) with Some d => Some d | None => st_get id (flat c) end) /\
+  insert_spec sc (concat parts) (flat c) =
+    (fold_left (fun acc p => st_set (fst p) (snd p) acc) (concat parts) (flat c), SOk []) /\
+  (forall id, st_get id (flat (fan_insert sc parts c)) =
+              st_get id (fst (insert_spec sc (concat parts) (flat c)))).
+Proof. exact thm_insert_reference. Qed.
+Print Assumptions c17_insert_reference.
+
 (* --- the hypothesis of c17_found_once is an invariant of every history: an insert that gives each new
        point to one shard (parts = the ranges of distributePoints, C15), an update and a delete keep the
        ids unique per collection, whatever shards are available or refuse their part --- *)
@@ -246,6 +263,14 @@ Example c17_ex_delete :
   map (fun sh => store_ids (sh_store sh)) (fst (fan_delete [ex_id 9; ex_id 4; ex_id 3; ex_id 9] ex_col_down))
     = [[ex_id 1; ex_id 5]; [ex_id 3]; [ex_id 2]].
 Proof. vm_compute. repeat split; reflexivity. Qed.
+
+(* insert of three new points: one into the room of shard 1, two into a new fourth shard *)
+Example c17_ex_insert :
+  let parts := [[]; [(ex_id 4, ex_doc 40)]; []; [(ex_id 6, ex_doc 60); (ex_id 7, ex_doc 70)]] in
+  map (fun sh => store_ids (sh_store sh)) (fan_insert [] parts ex_col)
+    = [[ex_id 1; ex_id 5]; [ex_id 4; ex_id 3]; [ex_id 9; ex_id 2]; [ex_id 7; ex_id 6]] /\
+  st_get (ex_id 7) (flat (fan_insert [] parts ex_col)) = Some (ex_doc 70).
+Proof. vm_compute. split; reflexivity. Qed.
 
 (* update of 5 and of the unknown 7: only shard 0 changes *)
 Example c17_ex_update :
